@@ -526,9 +526,10 @@ def legs_line(case):
 class _Dims:
     """One dimension per label class; bound partners share the class."""
 
-    def __init__(self, rng, distinct):
+    def __init__(self, rng, distinct, small=False):
         self.rng = rng
         self.distinct = distinct
+        self.small = small
         self.pool = list(range(2, 40))
         rng.shuffle(self.pool)
         self.pool.sort(key=lambda x: x // 4)      # small numbers first, shuffled inside groups
@@ -536,7 +537,10 @@ class _Dims:
 
     def get(self, cls):
         if cls not in self.d:
-            self.d[cls] = self.pool.pop(0) if self.distinct else self.rng.choice([1, 2, 2, 3])
+            if self.small:
+                self.d[cls] = self.rng.choice([1, 2, 2, 2])
+            else:
+                self.d[cls] = self.pool.pop(0) if self.distinct else self.rng.choice([1, 2, 2, 3])
         return self.d[cls]
 
 
@@ -969,7 +973,9 @@ def _build_tree_case(case):
     nprng = np.random.default_rng(case["seed"])
     par = case["par"]
     n = len(par)
-    dims = _Dims(rng, case.get("distinct", True))
+    ints = bool(case.get("ints"))
+    dims = _Dims(rng, case.get("distinct", True), small=ints)
+    kw = {"complex_": False, "small_int": True} if ints else {}
     three = case["fn"] == "tree3"
     phys = {i: [dims.get(("P", i))] for i in range(n)}
     if case["fn"] == "asmat":
@@ -977,7 +983,7 @@ def _build_tree_case(case):
         inv = {v: k for k, v in names.items()}
         bo = {(p, i): dims.get(("O", i)) for i, p in enumerate(par) if p >= 0}
         ttno, _, _, _ = gen.build_network(TreeTensorNetworkOperator, par, bo, {i: phys[i] * 2 for i in range(n)},
-                                          rng, nprng)
+                                          rng, nprng, **kw)
 
         def nbo(i):
             nd = ttno.nodes[names[i]]
@@ -988,7 +994,7 @@ def _build_tree_case(case):
             f"{i}:{','.join(str(inv[c]) for c in ttno.nodes[names[i]].children) or '-'};-" for i in range(n))
         return ttno, ttno, operands, line, n >= 3
     bk = {(p, i): dims.get(("K", i)) for i, p in enumerate(par) if p >= 0}
-    ket, _, _, names = gen.build_network(TreeTensorNetworkState, par, bk, phys, rng, nprng)
+    ket, _, _, names = gen.build_network(TreeTensorNetworkState, par, bk, phys, rng, nprng, **kw)
     inv = {v: k for k, v in names.items()}
 
     def nb(ttn, i):
@@ -998,14 +1004,14 @@ def _build_tree_case(case):
     if three:
         bo = {(p, i): dims.get(("O", i)) for i, p in enumerate(par) if p >= 0}
         other, _, _, _ = gen.build_network(TreeTensorNetworkOperator, par, bo, {i: phys[i] * 2 for i in range(n)},
-                                           rng, nprng)
+                                           rng, nprng, **kw)
         operands += [(other.tensors[names[i]], [f"gO{i}_{x}" for x in nb(other, i)] + [f"gOO{i}", f"gOI{i}"])
                      for i in range(n)]
         operands += [(ket.tensors[names[i]].conj(), [f"gB{i}_{x}" for x in nb(ket, i)] + [f"gBP{i}"])
                      for i in range(n)]
     else:
         bb = {(p, i): dims.get(("B", i)) for i, p in enumerate(par) if p >= 0}
-        other, _, _, _ = gen.build_network(TreeTensorNetworkState, par, bb, phys, rng, nprng)
+        other, _, _, _ = gen.build_network(TreeTensorNetworkState, par, bb, phys, rng, nprng, **kw)
         operands += [(other.tensors[names[i]], [f"gB{i}_{x}" for x in nb(other, i)] + [f"gBP{i}"]) for i in range(n)]
 
     def kids(ttn, i):
@@ -1052,6 +1058,50 @@ def _case_tree(ctx, case, model_out=None):
     if abs(complex(got) - complex(ref)) > 1e-9 * max(abs(complex(ref)), 1e-6 * scale):
         ctx.corr_fail(case, f"{case['fn']}: library value {complex(got)!r} differs from the contraction over the "
                             f"model's global binding list {complex(ref)!r}")
+        return
+    if case.get("ints"):
+        _model_value(ctx, case, model_out, operands, [complex(got)])
+
+
+def _model_value(ctx, case, model_out, operands, got_flat):
+    """Integer tensors: the Lean model itself evaluates its binding record on the library's tensors (`netValue` of
+    Ptn/Common/EinsumModel.lean, the function the value-level theorems are about); the library's result must be that number
+    exactly."""
+    from harness import einsum_corr
+    lpart, bpart = model_out.split(" | ")
+    legs = lpart.split()[1:]
+    binds = [tuple(x.split("~")) for x in bpart.split()[1:]]
+    num = {}
+    dims = []
+    leaves = []
+    for arr, labs in operands:
+        if np.abs(np.asarray(arr).imag).max(initial=0) != 0 or np.abs(arr - np.round(arr.real)).max(initial=0) != 0:
+            return
+        ll = []
+        for l, d in zip(labs, np.asarray(arr).shape):
+            num[l] = len(dims)
+            dims.append(int(d))
+            ll.append(num[l])
+        leaves.append((ll, np.round(np.asarray(arr).real).astype(np.int64)))
+    size = 1
+    for a, _ in binds:
+        size *= dims[num[a]]
+    for l in legs:
+        size *= dims[num[l]]
+    if size > 40000:
+        ctx.tally("model_value", "skipped (too large)")
+        return
+    line = einsum_corr.einrec_line(dims, [num[l] for l in legs], [(num[a], num[b]) for a, b in binds], leaves)
+    ans = ctx.lean.batch([line])[0]
+    ctx.tally("model_value", case["fn"])
+    ctx.count(("model_value", line), nontrivial=len(binds) >= 4, corr=True)
+    tab = einsum_corr.parse_table(ans, "full")
+    if tab is None:
+        ctx.corr_fail(case, f"{case['fn']}: the value-level model rejects its own binding record: [{ans[:120]}]")
+        return
+    if len(tab) != len(got_flat) or any(complex(t) != complex(g) for t, g in zip(tab, got_flat)):
+        ctx.corr_fail(case, f"{case['fn']}: library value {got_flat[:6]} differs from the Lean model's evaluation of its "
+                            f"binding record on the same integer tensors {tab[:6]}")
 
 
 def _case_asmat(ctx, case, ttno, operands, line, model_out):
@@ -1082,6 +1132,10 @@ def _case_asmat(ctx, case, ttno, operands, line, model_out):
     if mat.shape != refm.shape or np.linalg.norm(mat - refm) > 1e-9 * max(float(np.linalg.norm(refm)), 1e-300):
         ctx.corr_fail(case, "asmat: matrix differs from rows = all output legs, columns = all input legs in the "
                             "returned node order (contraction over the model's bindings)")
+        return
+    if case.get("ints"):
+        _model_value(ctx, case, "legs " + " ".join(rows + cols) + " | " + parts[3], operands,
+                     [complex(x) for x in np.asarray(mat).reshape(-1)])
 
 
 def gen_tree_cases(ctx):
@@ -1094,8 +1148,15 @@ def gen_tree_cases(ctx):
         fn = rng.choice(["tree2", "tree3", "tree2", "tree3", "asmat"])
         if fn == "tree3" and distinct:
             n = min(n, 4)
-        cases.append({"kind": "tree", "fn": fn, "par": gen.random_parent_array(rng, n, kind),
-                      "seed": rng.randrange(10 ** 9), "distinct": distinct})
+        c = {"kind": "tree", "fn": fn, "par": gen.random_parent_array(rng, n, kind),
+             "seed": rng.randrange(10 ** 9), "distinct": distinct}
+        if rng.random() < 0.4:
+            # integer tensors with small dimensions: the Lean model itself evaluates its binding record (exact)
+            c["ints"] = True
+            c["distinct"] = False
+            if fn == "tree3" and n > 3 or n > 5:
+                c["par"] = gen.random_parent_array(rng, 3 if fn == "tree3" else 5, kind)
+        cases.append(c)
     return cases
 
 
@@ -1388,6 +1449,8 @@ def run(ctx):
         _case_legs(ctx, c, mo)
     # the effective-Hamiltonian cases tie the model Ptn.C05.Heff to the code: they are run and judged by the check of
     # C05 (run_heff below), not by C04
+    from harness import einsum_corr
+    einsum_corr.run_ein(ctx)
     trees = gen_tree_cases(ctx)
     outs = ctx.lean.batch([tree_line(c) for c in trees])
     for c, mo in zip(trees, outs):
